@@ -24,6 +24,8 @@
 #include <opm/input/eclipse/EclipseState/Grid/FieldPropsManager.hpp>
 #include <opm/input/eclipse/EclipseState/Grid/FieldProps.hpp>
 #include <opm/input/eclipse/EclipseState/Grid/FieldData.hpp>
+#include <opm/input/eclipse/EclipseState/Grid/Box.hpp>
+#include <opm/input/eclipse/EclipseState/Grid/GridDims.hpp>
 #include <opm/input/eclipse/Units/UnitSystem.hpp>
 #include <opm/input/eclipse/Units/Dimension.hpp>
 #include <opm/common/OpmLog/OpmLog.hpp>
@@ -1145,6 +1147,43 @@ int main(int argc, char** argv) {
             sink.emit("fieldprops.ref " + toks, ans);
             sink.count(real.ok ? "answer.ok" : "answer.err");
             if (j < 3) vh::spit(outdir + "/sample" + std::to_string(j) + ".DATA", deck);
+        }
+        // Box::initIndexList on its own: the real Box class with an arbitrary active map, every triple compared
+        const int nidx = ncases(tier, 250, 3000);
+        for (int j = 0; j < nidx; ++j) {
+            const int nx = rng.range(1, 6), ny = rng.range(1, 6), nz = rng.range(1, 6);
+            const int n = nx * ny * nz;
+            std::vector<int> act(n), rank(n, 0);
+            const int dens = rng.pick(std::vector<int>{ 100, 80, 50, 20, 0 });
+            for (auto& a : act) a = (int) rng.below(100) < dens;
+            { int r = 0; for (int g = 0; g < n; ++g) { rank[g] = r; r += act[g]; } }
+            int bx[6];
+            const int dims[3] = { nx, ny, nz };
+            for (int a = 0; a < 3; ++a) {
+                int lo = rng.range(0, dims[a] - 1), hi = rng.range(0, dims[a] - 1);
+                if (lo > hi && !rng.coin(1, 20)) std::swap(lo, hi);
+                if (rng.coin(1, 25)) hi = dims[a];
+                if (rng.coin(1, 25)) lo = -1;
+                bx[2 * a] = lo; bx[2 * a + 1] = hi;
+            }
+            std::string ans;
+            try {
+                Box box(GridDims(nx, ny, nz),
+                        [&act](const std::size_t g) { return act[g] != 0; },
+                        [&rank](const std::size_t g) { return static_cast<std::size_t>(rank[g]); },
+                        bx[0], bx[1], bx[2], bx[3], bx[4], bx[5]);
+                for (const auto& ci : box.index_list()) {
+                    if (!ans.empty()) ans += ",";
+                    ans += std::to_string(ci.global_index) + ":" + std::to_string(ci.active_index) + ":" + std::to_string(ci.data_index);
+                }
+                if (ans.empty()) ans = "-";
+                sink.count("idx.ok");
+            } catch (const std::exception&) { ans = "err"; sink.count("idx.err"); }
+            std::ostringstream o;
+            o << "fieldprops.idx " << nx << " " << ny << " " << nz << " ";
+            for (int a : act) o << (a ? '1' : '0');
+            for (int q = 0; q < 6; ++q) o << " " << bx[q];
+            sink.emit(o.str(), ans);
         }
         sink.writeStats(outdir + "/stats.json");
         return 0;
